@@ -9,12 +9,17 @@ SMALL = [0, 0, 0, 1, 1, 2, 3, 10]
 LOCAL_ALPHA = ["a", "b", "abc", "ubuntu", "z", "a1", "1a", "local", "x"]
 # one representative per interesting code-point class (see DESIGN §3.2)
 ODD_CHARS = ["ſ", "İ", "ı", "K", "١", " ", " ", "\x00", "\r", "\n", "\\", "\ud800",
-             "\x1c", "\x1f", "\x85", "²", "１", "é", "+", "!", "-", "_", ".", "*", "v", "V", " ", "0", "a", "(", ")", ";", ","]
+             "\x1c", "\x1f", "\x85", "²", "１", "é", "+", "!", "-", "_", ".", "*", "v", "V", " ", "0", "a", "(", ")", ";", ",",
+             "{", "}", "{x}", "{0}", "%s", "\\", "'", "\"", "#", "[", "]", "@", "/", ":"]
+
+
+BIG = [99, 2024, 10**9, 2**31 - 1, 2**31, 2**32, 2**63 - 2, 2**63 - 1, 2**63, 2**63 + 1, 2**64 - 1, 2**64, 2**64 + 1, 10**20, 10**30]
 
 
 def num(rng, big=False):
-    if big and rng.random() < 0.05:
-        return rng.choice([99, 2024, 10**9, 10**20, 2**64 + 1])
+    """component magnitudes are unbounded in the properties: machine-word boundaries are generated on purpose"""
+    if rng.random() < (0.05 if big else 0.025):
+        return rng.choice(BIG)
     return rng.choice(SMALL)
 
 
